@@ -30,7 +30,7 @@ CATALOGUE = [
     # ---- C06
     ("add-left-bias-color", "C06", "style.py", "new_style._color = style._color or self._color", "new_style._color = self._color or style._color"),
     ("str-drops-not", "C06", "style.py", "append(\"strike\" if self.strike else \"not strike\")", "append(\"strike\")"),
-    ("copy-stale-hash", "C06", "style.py", "        style._link = link\n        style._link_id = f\"{time()}-{randint(0, 999999)}\" if link else \"\"\n        style._hash = None", "        style._link = link\n        style._link_id = f\"{time()}-{randint(0, 999999)}\" if link else \"\"\n        style._hash = self._hash"),
+    ("copy-stale-hash", "C06", "style.py", "        style._link = link or None\n        style._link_id = f\"{time()}-{randint(0, 999999)}\" if link else \"\"\n        style._hash = None", "        style._link = link or None\n        style._link_id = f\"{time()}-{randint(0, 999999)}\" if link else \"\"\n        style._hash = self._hash"),
     # ---- C04
     ("escape-single-backslash", "C04", "markup.py", "return f\"{backslashes}{backslashes}\\\\{text}\"", "return f\"{backslashes}\\\\{text}\""),
     ("markup-close-pops-first", "C04", "markup.py", "for index, (_, tag, _) in enumerate(reversed(style_stack), 1):", "for index, (_, tag, _) in enumerate(style_stack, 1 - len(style_stack) or 1):"),
@@ -84,7 +84,17 @@ CATALOGUE = [
     ("live-stop-no-cursor-restore", "C10", "live.py", "                self.console.pop_render_hook()\n                self.console.show_cursor(True)", "                self.console.pop_render_hook()\n                self.console.show_cursor(not self.transient)"),
     ("progress-start-leak", "C10", "progress.py", "            except BaseException:\n                # the with block is never entered", "            except KeyError:\n                # the with block is never entered"),
     # ---- C12
-    ("advance-without-lock", "C12", "progress.py", "        current_time = self.get_time()\n        with self._lock:\n            task = self._tasks[task_id]\n            completed_start = task.completed\n            task.completed += advance", "        current_time = self.get_time()\n        if True:\n            task = self._tasks[task_id]\n            completed_start = task.completed\n            task.completed += advance"),
+    ("advance-without-lock", "C12", "progress.py", "        with self._lock:\n            current_time = self.get_time()\n            task = self._tasks[task_id]\n            completed_start = task.completed\n            task.completed += advance", "        if True:\n            current_time = self.get_time()\n            task = self._tasks[task_id]\n            completed_start = task.completed\n            task.completed += advance"),
+    ("advance-reads-clock-before-lock", "C12", "progress.py", "        with self._lock:\n            current_time = self.get_time()\n            task = self._tasks[task_id]\n            completed_start = task.completed", "        current_time = self.get_time()\n        with self._lock:\n            task = self._tasks[task_id]\n            completed_start = task.completed"),
+    ("update-link-keeps-definition", "C06", "style.py", "        style._ansi = self._ansi\n        style._style_definition = None\n        style._color = self._color", "        style._ansi = self._ansi\n        style._style_definition = self._style_definition\n        style._color = self._color"),
+    ("empty-print-bypasses-hooks", "C10", "console.py", "        if not objects:\n            objects = (NewLine(),)\n", "        if not objects:\n            self.line()\n            return\n"),
+    ("crlf-line-lost", "C19", "ansi.py", "        line = line.rstrip(\"\\r\").rsplit(\"\\r\", 1)[-1]", "        line = line.rsplit(\"\\r\", 1)[-1]"),
+    ("add-column-no-backfill", "C07", "table.py", "        for _ in self.rows:\n            column._cells.append(Text(\"\"))\n        self.columns.append(column)", "        self.columns.append(column)"),
+    ("panel-title-keeps-justify", "C08", "panel.py", "            title_text.justify = None\n", ""),
+    ("split-drops-nonblank-last-piece", "C05", "text.py", "        if not allow_blank and text.endswith(separator) and not lines[-1].plain:", "        if not allow_blank and text.endswith(separator):"),
+    ("styled-control-to-non-terminal", "C03", "console.py", "            if not_terminal and is_control:\n                continue\n            if style:", "            if style:"),
+    ("traceback-lexer-guess-raises", "C17", "traceback.py", "        except ClassNotFound:\n            # no lexer for this file name: show the source without highlighting\n            lexer_name = \"text\"", "        except ZeroDivisionError:\n            lexer_name = \"text\""),
+    ("rgb-name-keeps-blanks", "C06", "color.py", "            return cls(\"\".join(color.split()), ColorType.TRUECOLOR, triplet=triplet)", "            return cls(color, ColorType.TRUECOLOR, triplet=triplet)"),
     ("percentage-not-clamped-low", "C12", "progress.py", "completed = min(100.0, max(0.0, completed))\n        return completed", "completed = min(100.0, completed)\n        return completed"),
     ("finished-time-overwritten", "C12", "progress.py", "            if task.completed >= task.total and task.finished_time is None:\n                task.finished_time = task.elapsed\n\n    def refresh", "            if task.completed >= task.total:\n                task.finished_time = task.elapsed\n\n    def refresh"),
     # ---- C11
